@@ -282,10 +282,34 @@ Fixpoint parse_hooks (names : list bytes) : list label + bytes :=
       end
   end.
 
+(* `parked-any` (records only): the reader parked in the transport read, the connection then doing
+   anything — the state in which a driver-level Close finds the connection when its on-close hook
+   still talks to the device.  Not one of the verified scenarios; used to judge recorded runs. *)
+Fixpoint set_nth {A} (n : nat) (x : A) (l : list A) : list A :=
+  match n, l with
+  | _, [] => []
+  | 0, _ :: t => x :: t
+  | S m, y :: t => y :: set_nth m x t
+  end.
+Definition sys_parked_any (sc : scenario) : sys label :=
+  let sy := sys_of (mkSc (sc_kind sc) StDataArriving (sc_tc sc) (sc_second sc) (sc_user sc)) in
+  mkSys (set_nth T_ENV (env_code (env_allowed StAny)) (threads sy)) (init sy).
+
+Definition subst_state (fs : list bytes) : list bytes :=
+  if is (nthf 2 fs) "parked-any" then set_nth 2 (bs "data-arriving") fs else fs.
+
 Definition run_hooks (old : bool) (fs : list bytes) : list bytes :=
-  match parse_scenario fs with
+  match parse_scenario (subst_state fs) with
   | None => [bs "bad-input"]
   | Some sc =>
+      if is (nthf 2 fs) "parked-any" then
+        let f := nthf 6 fs in
+        match (match f with [] => inl [] | _ => if is f "-" then inl [] else parse_hooks (split_on COMMA f) end) with
+        | inr n => [bs "bad-label:" ++ n]
+        | inl tr => if accepts_trace label_id (mask is_hook (sys_parked_any sc)) TRACE_FUEL tr
+                    then [bs "accept"] else [bs "reject"]
+        end
+      else
       let f := nthf 6 fs in
       match (match f with [] => inl [] | _ => if is f "-" then inl [] else parse_hooks (split_on COMMA f) end) with
       | inr n => [bs "bad-label:" ++ n]
